@@ -41,3 +41,25 @@ func unwrapJSONNumber(input any) any {
 
 	return input
 }
+
+// unwrapJSONNumbers unwraps every json.Number found in a decoded JSON value (lists and objects included).
+func unwrapJSONNumbers(input any) any {
+	switch val := input.(type) {
+	case []any:
+		unwrapped := make([]any, len(val))
+		for i, item := range val {
+			unwrapped[i] = unwrapJSONNumbers(item)
+		}
+
+		return unwrapped
+	case map[string]any:
+		unwrapped := make(map[string]any, len(val))
+		for key, item := range val {
+			unwrapped[key] = unwrapJSONNumbers(item)
+		}
+
+		return unwrapped
+	default:
+		return unwrapJSONNumber(input)
+	}
+}
